@@ -1,0 +1,21 @@
+//! Verification hook (`--cfg foca_verif`): read-only view of `Broadcasts`.
+use alloc::vec::Vec;
+
+use super::Broadcasts;
+
+impl<V> Broadcasts<V> {
+    /// Every pending entry as (remaining_tx, data, view of the key), in
+    /// unspecified order, plus the length of the scratch heap.
+    pub(crate) fn verif_view<K>(
+        &self,
+        mut key_view: impl FnMut(&V, &[u8]) -> K,
+    ) -> (Vec<(usize, Vec<u8>, K)>, usize) {
+        (
+            self.flip
+                .iter()
+                .map(|e| (e.remaining_tx, e.data.clone(), key_view(&e.item, &e.data)))
+                .collect(),
+            self.flop.len(),
+        )
+    }
+}
